@@ -1,17 +1,18 @@
 (* One engine for ALL node kinds TaffyView::compute_child_layout dispatches on: block containers (Model/BlockAlg.v, transported as in
-   Model/BlockFlexEngine.v), flex containers (Model/FlexAlg.v), grid containers (Model/GridAlg.v) and leaves.  The node style is the
+   Model/BlockFlexEngine.v), flex containers (Model/FlexAlg.v), grid containers (Model/GridAlg.v) and leaves (Model/Leaf.v).  The node style is the
    block+flex view (`BFStyle`) plus the fields only grid layout reads; the flex and the grid view are built from the SAME core style,
    so "display: none" / "position: absolute" mean the same in every view by construction.  Definitions only. *)
 From Coq Require Import ZArith Bool List.
 From TV Require Import Model.Common Model.Leaf Gen.GridTracksGen Model.GridTracks.
-From TV Require Import Model.FlexAlgBase Model.FlexAlg Model.EngineLift Model.BlockFlexEngine Model.GridAlgBase Model.GridAlg.
+From TV Require Import Model.FlexAlgBase Model.FlexAlg Model.EngineLift Model.BlockFlexEngine Model.GridAlgBase Model.GridAlg Model.GridAlgTotal.
 From TV Require Gen.FlexGen Gen.BlockGen Model.Block Model.BlockAlg Model.Engine.
 Import ListNotations.
 Close Scope Z_scope.
 Close Scope N_scope.
 
 (* Style = BFStyle (core, inset, flex container / item fields incl. the alignment properties and gap shared with grid, item_is_table,
-   text_align) + the grid-only fields *)
+   text_align) + the grid-only fields + the node's measure function (TaffyTree: node context + the measure closure; only a childless
+   node's is ever called) *)
 Record TStyle (T : Type) := mkTS {
   ts_bf : BFStyle T;
   ts_template_columns : list (tsf T); ts_template_rows : list (tsf T);
@@ -20,10 +21,14 @@ Record TStyle (T : Type) := mkTS {
   ts_justify_items : option AE.AlignItems; ts_justify_self : option AE.AlignItems;
   ts_row : PB.Ln PB.GP; ts_column : PB.Ln PB.GP;
   ts_replaced : bool;
+  ts_measure : MeasureFn T;
 }.
 Arguments mkTS {T}. Arguments ts_bf {T}. Arguments ts_template_columns {T}. Arguments ts_template_rows {T}. Arguments ts_auto_columns {T}.
 Arguments ts_auto_rows {T}. Arguments ts_flow {T}. Arguments ts_justify_items {T}. Arguments ts_justify_self {T}. Arguments ts_row {T}.
-Arguments ts_column {T}. Arguments ts_replaced {T}.
+Arguments ts_column {T}. Arguments ts_replaced {T}. Arguments ts_measure {T}.
+
+(* what TaffyView::compute_child_layout's `match (display_mode, has_children)` selects *)
+Inductive TKind := TKBlock | TKFlex | TKGrid | TKLeaf.
 
 Section Taffy.
   Context {T : Type} `{Num T}.
@@ -53,17 +58,102 @@ Section Taffy.
   (* what a parent may read of an out-of-flow child's style: its grid placement lines (only a grid parent does) *)
   Definition t_lines (s : TStyle T) : PB.Ln PB.GP * PB.Ln PB.GP := (ts_row s, ts_column s).
 
+  (* the grid container algorithm: Model/GridAlg.v `grid_alg` wherever the Rust code does not panic; where it does (grid_no_panic fails:
+     the whole compute_layout call aborts, there is nothing to model) the total stand-in of Model/GridAlgTotal.v, so that the interface
+     hypotheses of the engine theorems hold for EVERY style, child list and input *)
   Definition grid_alg_t : TStyle T -> list (TStyle T) -> FIn T -> Engine.Alg (FIn T) (LayoutOutput T) (FLay T) :=
-    style_comap (GStyle T) (TStyle T) (FIn T) (LayoutOutput T) (FLay T) to_gstyle grid_alg.
-  Definition blockflex_alg_t (kind : BFStyle T -> NodeKind) pre abs_child (leaf : BFStyle T -> FIn T -> LayoutOutput T)
+    style_comap (GStyle T) (TStyle T) (FIn T) (LayoutOutput T) (FLay T) to_gstyle grid_alg_total.
+  Definition block_alg_t (pre : B.BStyle T -> BA.BIn T -> BA.BIn T) (abs_child : @BA.AbsChild T)
     : TStyle T -> list (TStyle T) -> FIn T -> Engine.Alg (FIn T) (LayoutOutput T) (FLay T) :=
-    style_comap (BFStyle T) (TStyle T) (FIn T) (LayoutOutput T) (FLay T) ts_bf (blockflex_algo kind pre abs_child leaf).
+    style_comap (BFStyle T) (TStyle T) (FIn T) (LayoutOutput T) (FLay T) ts_bf (block_alg_bf pre abs_child).
+  Definition flex_alg_t : TStyle T -> list (TStyle T) -> FIn T -> Engine.Alg (FIn T) (LayoutOutput T) (FLay T) :=
+    style_comap (BFStyle T) (TStyle T) (FIn T) (LayoutOutput T) (FLay T) ts_bf flex_alg_bf.
 
-  (* TaffyView::compute_child_layout's dispatch: (Display::Grid, has children) -> compute_grid_layout; everything else as in
-     Model/BlockFlexEngine.v.  `is_grid` / `kind` decide from the node's own style *)
-  Definition taffy_algo (is_grid : TStyle T -> bool) (kind : BFStyle T -> NodeKind) pre abs_child (leaf : BFStyle T -> FIn T -> LayoutOutput T)
+  (* TaffyView::compute_child_layout's dispatch.  `disp` decides from the node's own style AND ITS NUMBER OF CHILDREN (the Rust code
+     matches on (display, has_children)); `leaf` is what a childless node computes (it may read the whole style incl. the measure
+     function).  `taffy_dispatch` / `taffy_leaf` below are the real ones; the engine theorems of C05 / C06 hold for every `disp`, `pre`,
+     `leaf` *)
+  Definition taffy_algo (disp : TStyle T -> nat -> TKind) pre abs_child (leaf : TStyle T -> FIn T -> LayoutOutput T)
     : TStyle T -> list (TStyle T) -> FIn T -> Engine.Alg (FIn T) (LayoutOutput T) (FLay T) :=
-    fun s st i => if is_grid s then grid_alg_t s st i else blockflex_alg_t kind pre abs_child leaf s st i.
+    fun s st i =>
+      match disp s (length st) with
+      | TKGrid => grid_alg_t s st i
+      | TKBlock => block_alg_t pre abs_child s st i
+      | TKFlex => flex_alg_t s st i
+      | TKLeaf => Engine.Ret (FIn T) (LayoutOutput T) (FLay T) (leaf s i)
+      end.
+
+  (* taffy_tree.rs l.370-394: `match (display_mode, has_children)`.  The arm (Display::None, _) is the engine's (Model/Engine.v `memo`
+     tests is_none before it runs the algorithm), so what a display:none style WITH children is mapped to here is never evaluated; it is
+     mapped to an algorithm for which every interface hypothesis of the engine theorems holds (a leaf would not visit its children) *)
+  Definition t_core (s : TStyle T) : Style T := fs_core (bf_flex (ts_bf s)).
+  Definition taffy_dispatch (s : TStyle T) (n_children : nat) : TKind :=
+    match n_children with
+    | O => TKLeaf
+    | S _ => match display (t_core s) with DBlock => TKBlock | DFlex => TKFlex | DGrid => TKGrid | DNone => TKFlex end
+    end.
+
+  (* the (_, false) arm: compute_leaf_layout(inputs, style, measure_function) -- Model/Leaf.v, ALL of leaf.rs; its `unreachable!()`
+     (hidden run mode) never happens below the engine, which answers hidden-mode inputs itself *)
+  Definition leaf_mode (m : Engine.RunMode) : RunMode :=
+    match m with
+    | Engine.PerformLayout => PerformLayout | Engine.ComputeSize => ComputeSize | Engine.PerformHiddenLayout => PerformHiddenLayout
+    end.
+  Definition leaf_input (i : FIn T) : LayoutInput T :=
+    mkInput (leaf_mode (qi_mode i)) (qi_sizing i) (qi_known i) (qi_parent i) (qi_avail i).
+  Definition taffy_leaf (s : TStyle T) (i : FIn T) : LayoutOutput T :=
+    match compute_leaf_layout (leaf_input i) (t_core s) (ts_measure s) with
+    | Some (o, _) => o
+    | None => output_HIDDEN
+    end.
+
+  (* ---- the class of nodes for which a ComputeSize evaluation provably stores nothing (NS): display is not block (the block algorithm
+     lays its children out while sizing: known finding computesize-scribble), neither align_items nor align_self is baseline (flex rows
+     and grids lay baseline-aligned children out while sizing) *)
+  Definition t_align_items (s : TStyle T) : option FAlign := fs_align_items (bf_flex (ts_bf s)).
+  Definition t_align_self (s : TStyle T) : option FAlign := fs_align_self (bf_flex (ts_bf s)).
+  Definition fa_not_baseline (a : option FAlign) : bool := match a with Some FA_Baseline => false | _ => true end.
+  Definition t_calm (s : TStyle T) : bool :=
+    negb (match display (t_core s) with DBlock => true | _ => false end)
+    && fa_not_baseline (t_align_items s) && fa_not_baseline (t_align_self s).
+
+  (* ---- the engine's other parameters: the run mode of an input, the memo key (every field of the LayoutInput; numbers compared with
+     `teq`: `eqb` of the Num instance compares them as numbers, Model/TaffyKey.v gives the representation equalities of F32 / XQ, which
+     are EXACT keys: equal keys are equal inputs), LayoutOutput::HIDDEN, Layout::with_order(0) *)
+  Definition mode_eqb (a b : Engine.RunMode) : bool :=
+    match a, b with
+    | Engine.PerformLayout, Engine.PerformLayout | Engine.ComputeSize, Engine.ComputeSize
+    | Engine.PerformHiddenLayout, Engine.PerformHiddenLayout => true
+    | _, _ => false
+    end.
+  Definition sizing_eqb (a b : SizingMode) : bool :=
+    match a, b with ContentSize, ContentSize | InherentSize, InherentSize => true | _, _ => false end.
+  Definition axis_eqb (a b : ReqAxis) : bool :=
+    match a, b with AxHorizontal, AxHorizontal | AxVertical, AxVertical | AxBoth, AxBoth => true | _, _ => false end.
+  Definition o_eqb (teq : T -> T -> bool) (a b : option T) : bool :=
+    match a, b with Some x, Some y => teq x y | None, None => true | _, _ => false end.
+  Definition av_eqb (teq : T -> T -> bool) (a b : AvailableSpace T) : bool :=
+    match a, b with
+    | Types.Definite x, Types.Definite y => teq x y
+    | Types.MinContent, Types.MinContent | Types.MaxContent, Types.MaxContent => true
+    | _, _ => false
+    end.
+  Definition fin_eqb_with (teq : T -> T -> bool) (a b : FIn T) : bool :=
+    mode_eqb (qi_mode a) (qi_mode b) && sizing_eqb (qi_sizing a) (qi_sizing b) && axis_eqb (qi_axis a) (qi_axis b)
+    && o_eqb teq (width (qi_known a)) (width (qi_known b)) && o_eqb teq (height (qi_known a)) (height (qi_known b))
+    && o_eqb teq (width (qi_parent a)) (width (qi_parent b)) && o_eqb teq (height (qi_parent a)) (height (qi_parent b))
+    && av_eqb teq (width (qi_avail a)) (width (qi_avail b)) && av_eqb teq (height (qi_avail a)) (height (qi_avail b))
+    && Bool.eqb (l_start (qi_collapsible a)) (l_start (qi_collapsible b))
+    && Bool.eqb (l_end (qi_collapsible a)) (l_end (qi_collapsible b)).
+
+  Definition fin_eqb : FIn T -> FIn T -> bool := fin_eqb_with eqb.
+
+  Definition taffy_memo (teq : T -> T -> bool) disp pre abs_child leaf :=
+    Engine.memo (TStyle T) (FIn T) (LayoutOutput T) (FLay T) qi_mode (fin_eqb_with teq) t_is_none output_HIDDEN (f_with_order 0)
+                (taffy_algo disp pre abs_child leaf).
+  Definition taffy_plain disp pre abs_child leaf :=
+    Engine.plain (TStyle T) (FIn T) (LayoutOutput T) (FLay T) qi_mode t_is_none output_HIDDEN (taffy_algo disp pre abs_child leaf).
+  Definition taffy_fresh := Engine.fresh (TStyle T) (FIn T) (LayoutOutput T) (FLay T) (f_with_order 0).
 
   (* engines of grid containers and leaves only, over the grid style *)
   Definition grid_leaf_algo (sel : GStyle T -> bool) (leaf : GStyle T -> GIn T -> LayoutOutput T)
